@@ -15,7 +15,7 @@ import ast
 import inspect
 import textwrap
 
-from vf.h import HarnessError, traced
+from vf.h import HarnessError, traced, P as _P
 
 
 class Deadlock(Exception):
@@ -171,7 +171,8 @@ class Sched:
         self.delays = delays        # delay-bounded mode (Emmi/Qadeer/Rakamaric): deterministic non-preemptive round-robin
         self.delay_used = 0         # scheduler; each solver-chosen 'delay' skips the thread whose turn it is; <= delays skips
         self.rr = 0
-        self.choices = list(choices)
+        # grid-fixed prefix of decisions (driver.expand_splits) + the solver-chosen vector
+        self.choices = list(_P.get("prefix") or []) + list(choices)
         self.i = 0
         self.threads = []
         self.max_preempt = max_preempt
